@@ -1,6 +1,7 @@
 #!/bin/sh
 # run every claimed quick check on the current tree and print one line each (regression after shared changes)
 cd "$(dirname "$0")/.." || exit 2
+mkdir -p "${CHECKALL_LOGDIR:-/tmp}"
 for p in $(python3 -c "import json;print(' '.join(c['property'] for c in json.load(open('MANIFEST.json'))['checks']))" 2>/dev/null || python3 -c "
 import sys; sys.path.insert(0,'tools'); import props; print(' '.join(sorted(props.SPECS)))"); do
   ./check $p --tier ${1:-quick} > ${CHECKALL_LOGDIR:-/tmp}/checkall-$p.log 2>&1; rc=$?
